@@ -222,11 +222,23 @@ class Interp:
     def for_file(cls, src, relpath, isa=None, stubs=None, also=(), methods=None, **kw):
         """an interpreter for code of one file of the repository: module-level names (and what they import from mindsdb_sql), the methods and
         class-level constants of every class of the file (and of the files in `also`) are resolved from the source"""
-        ms = {}
+        ms, bases = {}, {}
         for f in tuple(also) + (relpath,):
             for st in src.tree(f).body:
                 if isinstance(st, ast.ClassDef):
                     ms[st.name] = class_members(st)
+                    bases[st.name] = [b.id if isinstance(b, ast.Name) else b.attr for b in st.bases if isinstance(b, (ast.Name, ast.Attribute))]
+        # members inherited from base classes defined in the same files (nearest definition wins)
+        for name in list(ms):
+            seen, todo = {name}, list(bases.get(name, []))
+            while todo:
+                b = todo.pop(0)
+                if b in seen or b not in ms:
+                    continue
+                seen.add(b)
+                for k, v in class_members_of(src, f, b, ms).items():
+                    ms[name].setdefault(k, v)
+                todo.extend(bases.get(b, []))
         ms.update(methods or {})
         it = cls(isa or {}, stubs or {}, methods=ms, **kw)
         it.module, it.src = src.tree(relpath), src
@@ -685,6 +697,10 @@ class Interp:
             if n == 'type' and len(args) == 1:
                 o = args[0]
                 return ClassRef(o.kind) if isinstance(o, Obj) else type(o).__name__
+            if n == 'hasattr' and isinstance(args[0], dict):
+                return args[1] in args[0]           # a dict standing in for a record (the production `p` of a grammar action)
+            if n == 'getattr' and isinstance(args[0], dict) and args[1] in args[0]:
+                return args[0][args[1]]
             if n == 'hasattr':
                 o = args[0]
                 return isinstance(o, Obj) and args[1] in o.attrs
@@ -826,6 +842,10 @@ def _own_nodes(fn):
         for c in ast.iter_child_nodes(n):
             if not isinstance(c, (ast.FunctionDef, ast.ClassDef, ast.Lambda)):
                 stack.append(c)
+
+
+def class_members_of(src, f, name, ms):
+    return ms.get(name, {})
 
 
 def class_members(cls):
